@@ -56,6 +56,8 @@ class Harness(object):
         self.sv = {}
         self.max_events = cfg.get("max_events", 200000)
         self.njunk = 0
+        self.closed = False
+        self.salt = cfg.get("salt", 0)
         self.JUNK = [12345, 0, "", False, 0.0, "x", frozenset(), 7.5]
         H = self
 
@@ -66,6 +68,14 @@ class Harness(object):
                 self.seq = seq
                 H.batches[(kind, seq)] = self
                 self.on_computed.subscribe(lambda b: H.emit(["bdone", [kind, seq], 1 if b.error() is None else 0]))
+
+            # deterministic (per case) position in TaskScheduler._batches: ties between batches of equal priority are
+            # broken by set iteration order; the salt varies that order from case to case, reproducibly
+            def __hash__(self):
+                return hash((self.kind * 7919 + self.seq * 104729 + H.salt) % 1000003)
+
+            def __eq__(self, other):
+                return self is other
 
             def _try_switch_active_batch(self):
                 if H.cur.get(self.kind) is self:
@@ -201,6 +211,8 @@ class Harness(object):
 
     # ------------------------------------------------------------------ trace
     def emit(self, ev):
+        if self.closed:
+            return   # the run is over: events caused by garbage collection of suspended generators are not behaviour
         if len(self.trace) > self.max_events:
             raise RuntimeError("trace too long")
         self.trace.append(ev)
@@ -472,10 +484,22 @@ def run_program(case):
 
     sched.on_before_batch_flush.subscribe(before)
     sched.on_after_batch_flush.subscribe(after)
-    opts = case.get("opts", {})
+    opts = dict(case.get("opts", {}))
+    clock = opts.pop("_clock", None)
     saved = {}
     dbg = asynq.debug.options
+    real_utime = getattr(asynq.scheduler, "utime", None)
     try:
+        if clock is not None:
+            # scripted clock for the profiling code: every call advances by the next scripted amount (microseconds)
+            state = {"now": 1000000, "i": 0}
+
+            def fake_utime():
+                state["now"] += clock[state["i"] % len(clock)]
+                state["i"] += 1
+                return state["now"]
+
+            asynq.scheduler.utime = fake_utime
         for k, v in opts.items():
             saved[k] = getattr(dbg, k)
             setattr(dbg, k, v)
@@ -484,5 +508,12 @@ def run_program(case):
     finally:
         for k, v in saved.items():
             setattr(dbg, k, v)
+        if clock is not None and real_utime is not None:
+            asynq.scheduler.utime = real_utime
+        try:
+            asynq.profiler.reset()
+        except Exception:
+            pass
         asynq.scheduler.reset()
-    return H.trace
+        H.closed = True
+    return list(H.trace)
